@@ -487,6 +487,40 @@ func main() {
 			facts[tn] = tab
 		}
 	}
+	// the same tables as the slices Go builds from the keyed composite literals (index = current state, value =
+	// next state, a missing key is the zero value noState): Gen/States.lean
+	var stt strings.Builder
+	stt.WriteString("-- REGENERATED by harness/extract from /repo/reader.go and /repo/writer.go on every run. Do not edit.\nnamespace Lz4V.Gen\n")
+	if root != nil {
+		for _, tn := range []string{"writerStates", "readerStates"} {
+			tab, _ := facts[tn].(map[string]string)
+			vals := map[int64]int64{}
+			max := int64(-1)
+			for k, v := range tab {
+				kc, ok1 := root.constVal(k, "")
+				vc, ok2 := root.constVal(v, "")
+				if !ok1 || !ok2 {
+					fail("state table %s: %s: %s is not a pair of named states", tn, k, v)
+					continue
+				}
+				ki, _ := constant.Int64Val(kc)
+				vi, _ := constant.Int64Val(vc)
+				vals[ki] = vi
+				if ki > max {
+					max = ki
+				}
+			}
+			if len(tab) == 0 {
+				fail("state table %s not found", tn)
+			}
+			var items []string
+			for i := int64(0); i <= max; i++ {
+				items = append(items, fmt.Sprint(vals[i]))
+			}
+			fmt.Fprintf(&stt, "def %sTab : List Nat := [%s]\n", tn, strings.Join(items, ", "))
+		}
+	}
+	stt.WriteString("end Lz4V.Gen\n")
 
 	tables := ""
 	if blk != nil {
@@ -514,6 +548,7 @@ func main() {
 	write("Consts.lean", b.String())
 	write("Leaf.lean", l.String())
 	write("Tables.lean", tables)
+	write("States.lean", stt.String())
 	fj, _ := json.MarshalIndent(facts, "", " ")
 	write("facts.json", string(fj)+"\n")
 }
